@@ -13,6 +13,8 @@ PROP = "C05"
 
 def nontrivial(sc, tr):
     writes = [(e["conn"], e["src"], e["idx"], tuple(e["path"])) for e in tr if e["ev"] == "Write"]
+    if sc.get("driver") == "fanorder":
+        return ("fanout-node", sc["m"], tuple(sc["reject"]), tuple(bool(x) for x in sc["slow_us"]), sc["big_every"]) if writes else None
     if len(writes) < 2:
         return None
     interesting = len(sc["dests"]) > 1 or len(sc["sources"]) > 1 or \
@@ -21,6 +23,27 @@ def nontrivial(sc, tr):
     if not interesting:
         return None
     return (sc["engine"], len(sc["sources"]), len(sc["dests"]), hash(tuple(writes)))
+
+
+def fanout_order_scenarios(rng, n):
+    """node level (driver fanorder, the REAL stream.FanoutNode): large and small records alternate, branches answer at once
+    (one of them rejects the large / the small / every other record - the nack handler stands for a DLQ that stores it) or
+    take their messages slowly; every branch must see the feed order whatever the others do"""
+    out = []
+    for i in range(n):
+        m = 2 + i % 2
+        rej = ["none"] * m
+        rej[rng.randrange(m)] = ["large", "small", "odd", "all", "none"][i % 5]
+        slow = [0] * m
+        if i % 3 == 1:
+            slow[rng.randrange(m)] = rng.choice([50, 200, 1000])
+        out.append({"id": "v1-fanorder-%04d" % i, "engine": "v1", "sources": [{"id": "s1"}],
+                    "dests": [{"id": "d%d" % (b + 1)} for b in range(m)], "procs": [],
+                    "dlq": {"cfg": {}, "window": 0, "threshold": 0}, "steps": [],
+                    "cnt": rng.choice([24, 40]), "m": m, "big_every": rng.choice([2, 2, 3]),
+                    "big_bytes": rng.choice([1 << 20, 4 << 20]), "reject": rej, "slow_us": slow,
+                    "features": ["fanout-node", "reject-" + "+".join(sorted(set(rej))), "big-records"] + (["slow-branch"] if any(slow) else [])})
+    return out
 
 
 def run(tier, seed):
@@ -34,6 +57,7 @@ def run(tier, seed):
     chk.run(c04.order_scenarios("v1", rng, n) + c04.order_scenarios("v2", rng, n), name="order")
     sizes = (5, 6, 7, 8, 9) if tier == "quick" else (5, 6, 7, 8, 9, 10, 12, 16)
     chk.run(c04.hole_scenarios("v1", sizes) + c04.hole_scenarios("v2", sizes), name="holes")
+    chk.run_driver("fanorder", fanout_order_scenarios(rng, 30 if tier == "quick" else 400), name="fanout-order")
     chk.validate()
     return chk.finish(nontrivial,
                       "as C01 plus the order-stress family and the holes family (one batch of 5..9 records through two chained "
